@@ -566,7 +566,7 @@ func (m *AccessMon) End(w *World) {
 				if ev.Event == "+hand" || ev.Event == "+drop" || ev.Event == "unsubscribe" || ev.At <= t.time {
 					continue
 				}
-				if !t.cdirect[c.CID+" "+ev.RID] || c.Client.EverRef[ev.RID] {
+				if !(t.cdirect[c.CID+" "+ev.RID] || t.direct[c.CID+" "+ev.RID]) || c.Client.EverRef[ev.RID] {
 					continue // not directly subscribed, or (also) held indirectly at some point
 				}
 				name, q := splitKey(strings.ReplaceAll(ev.RID, "{cid}", c.CID))
